@@ -282,6 +282,44 @@ def verdict (cfg : Cfg) (now : Int) (latest : Option Int) (old n : Noti) : Verdi
       else .future
   else .accept
 
+/-- `gnmiUpdate` after the path checks and metadata side effects: update the existing leaf at
+`path` or add a new one.  `u` is `n.Update[0]`. -/
+def updateCore (cfg : Cfg) (now : Int) (t : Target) (realData : Bool) (path : Path) (n : Noti) (u : Upd) :
+    Res × Target × Option Noti :=
+  match lookup t.tree path with
+  | some old =>
+    match verdict cfg now t.latest old n with
+    | .stale => (.stale, { t with md := { t.md with stale := t.md.stale + 1 } }, none)
+    | .future => (.future, { t with md := { t.md with future := t.md.future + 1 } }, none)
+    | .accept =>
+      let t := { t with tree := setLeaf t.tree path n }
+      if n.atomic || old.atomic then (.ok, t, some n)
+      else
+        match old.upd with
+        | [] => (.panic, t, none)                                -- old.Update[0]
+        | ou :: _ =>
+          if valueEqual ou.val u.val && cfg.eventDriven then
+            (.ok, { t with md := { t.md with suppressed := t.md.suppressed + 1 } }, none)
+          else (.ok, t, some n)
+  | none =>
+    match PMap.add t.tree path n with
+    | none => (.err, t, none)                                    -- collision with a leaf / branch
+    | some tree' =>
+      let t := { t with tree := tree' }
+      let t := if realData then
+        { t with md := { t.md with leaves := t.md.leaves + 1, added := t.md.added + 1 } }
+        else t
+      (.ok, t, some n)
+
+/-- the checks on a non-empty joined path `h :: rest`: metadata paths need a second element and
+apply their side effect first; `none` = rejected with an error.  The flag is `realData`. -/
+def metaPre (t : Target) (h : String) (rest : Path) (v : Val) : Option (Target × Bool) :=
+  if h = metaRoot then
+    match rest with
+    | [] => none                                                 -- "meta" alone
+    | name :: _ => (metaSideEffect t name v).map (fun t' => (t', false))
+  else some (t, true)
+
 /-- `Target.gnmiUpdate(n)`: `n` carries the update to apply as its first update
 (`n.Update[0]`: a notification without updates makes the index expression panic).
 Returns the result, the new target and the leaf handed to the feed (if any). -/
@@ -293,40 +331,9 @@ def Target.gnmiUpdate1 (cfg : Cfg) (now : Int) (t : Target) (n : Noti) : Res × 
   | none => (.panic, t, none)                                        -- p[1:] on an empty slice
   | some [] => (.err, t, none)                                       -- empty path
   | some (h :: rest) =>
-    let path := h :: rest
-    let pre : Option (Target × Bool) :=
-      if h = metaRoot then
-        match rest with
-        | [] => none                                                 -- "meta" alone
-        | name :: _ => (metaSideEffect t name u.val).map (fun t' => (t', false))
-      else some (t, true)
-    match pre with
+    match metaPre t h rest u.val with
     | none => (.err, t, none)
-    | some (t, realData) =>
-      match lookup t.tree path with
-      | some old =>
-        match verdict cfg now t.latest old n with
-        | .stale => (.stale, { t with md := { t.md with stale := t.md.stale + 1 } }, none)
-        | .future => (.future, { t with md := { t.md with future := t.md.future + 1 } }, none)
-        | .accept =>
-          let t := { t with tree := setLeaf t.tree path n }
-          if n.atomic || old.atomic then (.ok, t, some n)
-          else
-            match old.upd with
-            | [] => (.panic, t, none)                                -- old.Update[0]
-            | ou :: _ =>
-              if valueEqual ou.val u.val && cfg.eventDriven then
-                (.ok, { t with md := { t.md with suppressed := t.md.suppressed + 1 } }, none)
-              else (.ok, t, some n)
-      | none =>
-        match PMap.add t.tree path n with
-        | none => (.err, t, none)                                    -- collision with a leaf / branch
-        | some tree' =>
-          let t := { t with tree := tree' }
-          let t := if realData then
-            { t with md := { t.md with leaves := t.md.leaves + 1, added := t.md.added + 1 } }
-            else t
-          (.ok, t, some n)
+    | some (t', realData) => updateCore cfg now t' realData (h :: rest) n u
 
 def isMetaKey (p : Path) : Bool :=
   match p with
@@ -338,6 +345,32 @@ def allSome {α : Type} : List (Option α) → Option (List α)
   | none :: _ => none
   | some a :: r => (allSome r).map (a :: ·)
 
+/-- the delete condition of `gnmiRemove`: stored timestamp strictly older -/
+def olderThan (ts : Int) (v : Noti) : Bool := decide (v.ts < ts)
+
+/-- a delete addressed below `meta/<name>` resets that metadata entry first, unless it is one of
+the counters the cache maintains itself (`metadata.TargetIntValues`) -/
+def resetMetaFor (t : Target) (path : Path) : Target :=
+  match path with
+  | h :: name :: _ =>
+    if h = metaRoot ∧ ¬ intNames.contains name then { t with md := t.md.resetEntry name } else t
+  | _ => t
+
+/-- `WalkDeleted(path, older, f)` and the bookkeeping after it.  The last component is `true`
+when a Go panic is reached (`d.Update[0]` in the callback). -/
+def removeCore (t : Target) (ts : Int) (path : Path) : Target × List Event × Bool :=
+  let r := PMap.delete (olderThan ts) t.tree path
+  match r.2 with
+  | [] => (t, [], false)
+  | x :: xs =>
+    match allSome ((x :: xs).map (fun kv => toDeleteEvent? kv.2 ts)) with
+    | none => ({ t with tree := r.1 }, [], true)
+    | some evs =>
+      let cnt : Int := (((x :: xs).filter (fun kv => !isMetaKey kv.1)).length : Nat)
+      ({ t with tree := r.1,
+                md := { t.md with leaves := t.md.leaves - cnt, deleted := t.md.deleted + cnt } },
+       evs, false)
+
 /-- `Target.gnmiRemove(n)`: `n` carries the delete to apply as its first delete
 (`n.Delete[0]`).  The last component is `true` when a Go panic is reached. -/
 def Target.gnmiRemove1 (t : Target) (n : Noti) : Target × List Event × Bool :=
@@ -346,21 +379,7 @@ def Target.gnmiRemove1 (t : Target) (n : Noti) : Target × List Event × Bool :=
   | d :: _ =>
   match joinKey? n d.path with
   | none => (t, [], true)                                            -- p[1:] on an empty slice
-  | some path =>
-    let t := match path with
-      | h :: name :: _ => if h = metaRoot then { t with md := t.md.resetEntry name } else t
-      | _ => t
-    let r := PMap.delete (fun (v : Noti) => decide (v.ts < n.ts)) t.tree path
-    match r.2 with
-    | [] => (t, [], false)
-    | removed =>
-      match allSome (removed.map (fun kv => toDeleteEvent? kv.2 n.ts)) with
-      | none => ({ t with tree := r.1 }, [], true)                  -- d.Update[0] in the callback
-      | some evs =>
-        let cnt : Int := ((removed.filter (fun kv => !isMetaKey kv.1)).length : Nat)
-        ({ t with tree := r.1,
-                  md := { t.md with leaves := t.md.leaves - cnt, deleted := t.md.deleted + cnt } },
-         evs, false)
+  | some path => removeCore (resetMetaFor t path) n.ts path
 
 /-- `checkTimestamp` -/
 def Target.checkTimestamp (t : Target) (ts : Int) : Target :=
@@ -410,46 +429,45 @@ def multiDeletes (hdr : Noti) : List Del → MultiAcc → MultiAcc
     if r.2.2 then { acc with panicked := true, t := r.1 }
     else multiDeletes hdr ds { acc with t := r.1, evs := if r.2.1.isEmpty then acc.evs else acc.evs ++ [r.2.1] }
 
-/-- `Target.GnmiUpdate(n)`: result, new target, feed events in callback order (grouped:
-the events of one delete come out of a map iteration, their mutual order is unspecified). -/
-def Target.gnmiUpdate (cfg : Cfg) (now : Int) (t : Target) (n : Noti) : Res × Target × List (List Event) :=
-  match tracksTimestamp? n with
-  | none => (.panic, t, [])
-  | some tracks =>
-  let finish (accepted : Bool) (t : Target) : Target :=
-    if accepted && tracks then t.checkTimestamp n.ts else t
+/-- one accepted-or-rejected update of the atomic / single-update arms: bump `targetLeavesUpdated`
+by `cnt` and emit the leaf when one was returned; the last component is the `updateTS` flag -/
+def singleArm (r : Res × Target × Option Noti) (cnt : Int) : Res × Target × List (List Event) × Bool :=
+  if r.1.isErr then (r.1, r.2.1, [], false)
+  else
+    match r.2.2 with
+    | some nd =>
+      (.ok, { r.2.1 with md := { r.2.1.md with updated := r.2.1.md.updated + cnt } }, [[Event.upd nd]], true)
+    | none => (.ok, r.2.1, [], true)
+
+/-- the `switch` of `Target.GnmiUpdate` (everything but the deferred timestamp tracking):
+result, new target, feed events in callback order (grouped: the events of one delete come out
+of a map iteration, their mutual order is unspecified), and the `updateTS` flag. -/
+def Target.dispatch (cfg : Cfg) (now : Int) (t : Target) (n : Noti) : Res × Target × List (List Event) × Bool :=
   if n.atomic then
-    if !n.del.isEmpty then (.err, t, [])
-    else if n.upd.isEmpty then (.ok, { t with md := { t.md with empty := t.md.empty + 1 } }, [])
-    else
-      let r := Target.gnmiUpdate1 cfg now t n
-      if r.1.isErr then (r.1, r.2.1, [])
-      else
-        match r.2.2 with
-        | some nd =>
-          let t := { r.2.1 with md := { r.2.1.md with updated := r.2.1.md.updated + (n.upd.length : Nat) } }
-          (.ok, finish true t, [[Event.upd nd]])
-        | none => (.ok, finish true r.2.1, [])
+    if !n.del.isEmpty then (.err, t, [], false)
+    else if n.upd.isEmpty then (.ok, { t with md := { t.md with empty := t.md.empty + 1 } }, [], false)
+    else singleArm (Target.gnmiUpdate1 cfg now t n) (n.upd.length : Nat)
   else if n.upd.length + n.del.length > 1 then
     let hdr := { n with upd := [], del := [] }
     let a := multiUpdates cfg now hdr n.upd { t := t }
     let b := multiDeletes hdr n.del a
-    if b.panicked then (.panic, b.t, b.evs)
-    else ((if b.anyErr then .err else .ok), finish b.anyOk b.t, b.evs)
-  else if n.upd.length = 1 then
-    let r := Target.gnmiUpdate1 cfg now t n
-    if r.1.isErr then (r.1, r.2.1, [])
-    else
-      match r.2.2 with
-      | some nd =>
-        let t := { r.2.1 with md := { r.2.1.md with updated := r.2.1.md.updated + 1 } }
-        (.ok, finish true t, [[Event.upd nd]])
-      | none => (.ok, finish true r.2.1, [])
+    if b.panicked then (.panic, b.t, b.evs, false)
+    else ((if b.anyErr then .err else .ok), b.t, b.evs, b.anyOk)
+  else if n.upd.length = 1 then singleArm (Target.gnmiUpdate1 cfg now t n) 1
   else if n.del.length = 1 then
     let t := { t with md := { t.md with updated := t.md.updated + 1 } }
     let r := Target.gnmiRemove1 t n
-    if r.2.2 then (.panic, r.1, []) else (.ok, r.1, if r.2.1.isEmpty then [] else [r.2.1])
-  else (.ok, { t with md := { t.md with empty := t.md.empty + 1 } }, [])
+    if r.2.2 then (.panic, r.1, [], false) else (.ok, r.1, (if r.2.1.isEmpty then [] else [r.2.1]), false)
+  else (.ok, { t with md := { t.md with empty := t.md.empty + 1 } }, [], false)
+
+/-- `Target.GnmiUpdate(n)`: the switch, then the deferred `checkTimestamp` when an update was
+accepted and the notification's first update is not under `meta`. -/
+def Target.gnmiUpdate (cfg : Cfg) (now : Int) (t : Target) (n : Noti) : Res × Target × List (List Event) :=
+  match tracksTimestamp? n with
+  | none => (.panic, t, [])
+  | some tracks =>
+    let r := t.dispatch cfg now n
+    (r.1, (if r.2.2.2 && tracks then r.2.1.checkTimestamp n.ts else r.2.1), r.2.2.1)
 
 /-! ### internally generated notifications (`metaNoti*`, `deleteNoti`) -/
 
